@@ -747,12 +747,18 @@ def m_ref_partial_eq(ctx):
     meth = ctx.norm.rsplit("::", 1)[1]
     a = eng.deref(ctx.args[0])
     b = eng.deref(ctx.args[1])
+    # strip further reference levels (&&A == &&B)
+    depth = len(strip_lifetimes(self_ty or "")) - len(strip_lifetimes(self_ty or "").lstrip("&"))
+    for _ in range(max(0, depth - 1)):
+        a = eng.deref(a)
+        b = eng.deref(b)
+    ra, rb = a, b          # now of type &A / &B
     if head in ("String", "str"):
         eq = str_id(eng, _str_node(eng, a)) == str_id(eng, _str_node(eng, b))
         return ctx.ret(mk_bool(eq if meth == "eq" else z3.Not(eq)))
     k = scalar_kind(head)
     if k is not None:
-        eq = eng.scalar(a, head) == eng.scalar(b, head)
+        eq = eng.scalar(eng.deref(a), head) == eng.scalar(eng.deref(b), head)
         return ctx.ret(mk_bool(eq if meth == "eq" else z3.Not(eq)))
     target = eng.resolve("<%s as PartialEq>::eq" % head, 2)
     if target is None:
@@ -760,11 +766,11 @@ def m_ref_partial_eq(ctx):
                                  ctx.args, ctx.site)
     if meth == "eq":
         dst = eng.place(ctx.st, ctx.frame, ctx.dest)
-        return eng.enter_node(ctx.st, ctx.frame, target, [ctx.args[0], ctx.args[1]], dst, ctx.ret_bb, ctx.callee)
+        return eng.enter_node(ctx.st, ctx.frame, target, [ra, rb], dst, ctx.ret_bb, ctx.callee)
 
     def cont(eng_, st2, stash, ret):
         return finish_call(eng_, st2, stash, mk_bool(z3.Not(eng_.scalar(ret, "bool"))))
-    return eng.call_then(ctx.st, target, [ctx.args[0], ctx.args[1]], call_stash(ctx), cont, ctx.callee)
+    return eng.call_then(ctx.st, target, [ra, rb], call_stash(ctx), cont, ctx.callee)
 
 
 def m_derived_ne(ctx):
